@@ -764,6 +764,13 @@ impl Chain {
 
     /// top-level transaction carrying one arbitrary CosmosMsg
     pub fn tx(&mut self, sender: &str, msg: CosmosMsg<Empty>, fault: Option<Fault>, script: &[(String, SinkAct)]) -> TxResult {
+        if self.label_of(sender).is_some() {
+            // a contract has no key and cannot sign a transaction: the chain rejects it before anything runs
+            // (contracts act only through the messages their own calls return)
+            let n = self.ctl.log.borrow().len();
+            self.ctl.bump("tx_signed_by_contract_rejected");
+            return TxResult { tx: self.ctl.tx.get(), ok: false, aborted_outside: false, data: None, ev_from: n, ev_to: n };
+        }
         let (tx, from) = self.begin(fault, script);
         let app = &mut self.app;
         let r = catch_unwind(AssertUnwindSafe(|| {
